@@ -277,13 +277,27 @@ func runC12(b *runner.Batch) {
 	types := []int{tA, tAAAA, tCNAME, tTXT, tTXT, tCNAME, tA, tSOA, 0, 255}
 	for i := 0; i < nops && b.NViolations() == 0; i++ {
 		e.w.Now += uint64(r.IntN(60)) * 1000
-		if r.IntN(40) == 0 {
-			// jump beyond the expiry of a token
-			for _, t := range []string{"aa.com", "s1.aa.com"} {
-				if st := e.m.names[t]; st != nil && st.exp > int64(e.w.Now) {
-					e.w.Now = uint64(st.exp + int64(r.IntN(3)) - 1)
-					b.Hit("clock-at-token-expiry")
-					break
+		if r.IntN(30) == 0 {
+			// jump onto the expiry of a PRNG-chosen live token — also a sub-name token whose parent lives on
+			// (seeded change C12-6: two sites disagreeing at the instant of expiry) — with complete read sweeps
+			// at exp-1, exp and exp+1; the next operation then runs at one of the three instants
+			var live []string
+			for _, t := range []string{"aa.com", "s1.aa.com", "s2.aa.com", "s1.bb.com", "bb.com"} {
+				if st := e.m.names[t]; st != nil && st.exp > int64(e.w.Now)+1 {
+					live = append(live, t)
+				}
+			}
+			if len(live) > 0 {
+				t := runner.Pick(r, live)
+				exp := e.m.names[t].exp
+				for _, at := range []int64{exp - 1, exp, exp + 1} {
+					e.w.Now = uint64(at)
+					e.recordSweep()
+				}
+				e.w.Now = uint64(exp + int64(r.IntN(3)) - 1)
+				b.Hit("clock-at-token-expiry")
+				if len(labels(t)) > 2 && e.m.alive(strings.Join(labels(t)[1:], "."), exp) {
+					b.Hit("clock-at-sub-name-token-expiry-under-a-live-parent")
 				}
 			}
 		}
